@@ -529,6 +529,7 @@ type c16Loop struct {
 	Strict bool // continues while i < bound (exactly)
 	Cmp    *ssa.BinOp
 	Body   []*ssa.BasicBlock // blocks inside the loop
+	Exits  int               // edges from a block of the loop to a block outside it
 }
 
 func c16Reaches(from, to *ssa.BasicBlock) bool {
@@ -647,6 +648,17 @@ func c16CountedLoop(fn *ssa.Function) (*c16Loop, string) {
 			}
 			if l.Bound == nil {
 				c16RotatedLoop(l, inc, b)
+			}
+			inBody := map[*ssa.BasicBlock]bool{}
+			for _, bb := range l.Body {
+				inBody[bb] = true
+			}
+			for _, bb := range l.Body {
+				for _, sc := range bb.Succs {
+					if !inBody[sc] {
+						l.Exits++
+					}
+				}
 			}
 			if l.Bound != nil {
 				loops = append(loops, l)
